@@ -13,11 +13,11 @@ mod verif_c19 {
         Matrix::new(RowVector::new(any_f32_22(), any_f32_22(), any_f32_22()), RowVector::new(any_f32_22(), any_f32_22(), any_f32_22()),
             RowVector::new(any_f32_22(), any_f32_22(), any_f32_22()))
     }
-    // fixed-point operands k/64, |k| <= 128: every product and sum below is exact in f32, so the f32 result
+    // fixed-point operands k/4, |k| <= 8: every product and sum below is exact in f32, so the f32 result
     // must equal the integer-exact oracle; a structural error (index, sign, transposition) cannot hide
-    fn gi() -> i32 { let k: i8 = kani::any(); k as i32 }
-    fn gf(k: i32) -> f32 { (k as f32) * 0.015625 }
-    fn gd(k: i32) -> f64 { (k as f64) * 0.015625 }
+    fn gi() -> i32 { let k: i8 = kani::any(); kani::assume(k >= -8 && k <= 8); k as i32 }
+    fn gf(k: i32) -> f32 { (k as f32) * 0.25 }
+    fn gd(k: i32) -> f64 { (k as f64) * 0.25 }
 
     #[kani::proof]
     fn k_c19_transpose_identity_f32() {
@@ -39,8 +39,8 @@ mod verif_c19 {
     }
 
     // concrete, generic (no zeros, no repeats) fixed-point fillers for the operands that are not symbolic in an instance
-    const FA: [[i32; 3]; 3] = [[37, -90, 11], [-5, 64, 123], [77, -19, -54]];
-    const FB: [[i32; 3]; 3] = [[-21, 7, 99], [45, -128, 3], [-66, 31, 18]];
+    const FA: [[i32; 3]; 3] = [[3, -7, 1], [-5, 6, 8], [7, -2, -4]];
+    const FB: [[i32; 3]; 3] = [[-2, 7, 5], [4, -8, 3], [-6, 1, 8]];
     fn m32(a: &[[i32; 3]; 3]) -> Matrix<f32> {
         Matrix::new(RowVector::new(gf(a[0][0]), gf(a[0][1]), gf(a[0][2])), RowVector::new(gf(a[1][0]), gf(a[1][1]), gf(a[1][2])), RowVector::new(gf(a[2][0]), gf(a[2][1]), gf(a[2][2])))
     }
@@ -60,11 +60,11 @@ mod verif_c19 {
         let p = ma.mul_mat(o).values();
         for i in 0..3 {
             let e = a[i][0] * v[0] + a[i][1] * v[1] + a[i][2] * v[2];
-            assert!(w[i] as f64 == (e as f64) * 0.000244140625, "mul_arr equals the exact product");
+            assert!(w[i] as f64 == (e as f64) * 0.0625, "mul_arr equals the exact product");
             assert!(c[i].to_bits() == w[i].to_bits(), "mul_vec agrees with mul_arr bit for bit");
             assert!(p[i][0].to_bits() == w[i].to_bits(), "mul_mat column agrees with mul_arr bit for bit");
         }
-        kani::cover!(a[R][1] == 100 && v[2] == -77, "non-trivial operands explored");
+        kani::cover!(a[R][1] == 7 && v[2] == -5, "non-trivial operands explored");
     }
     #[kani::proof] fn k_c19_mulvec_row0_f32() { mulvec_row::<0>() }
     #[kani::proof] fn k_c19_mulvec_row1_f32() { mulvec_row::<1>() }
@@ -79,9 +79,9 @@ mod verif_c19 {
         let p = m32(&a).mul_mat(m32(&b)).values();
         for i in 0..3 { for j in 0..3 {
             let e = a[i][0] * b[0][j] + a[i][1] * b[1][j] + a[i][2] * b[2][j];
-            assert!(p[i][j] as f64 == (e as f64) * 0.000244140625, "mul_mat equals the exact product");
+            assert!(p[i][j] as f64 == (e as f64) * 0.0625, "mul_mat equals the exact product");
         } }
-        kani::cover!(b[1][C] == 99 && a[(C + 1) % 3][0] == -3, "non-trivial operands explored");
+        kani::cover!(b[1][C] == 5 && a[(C + 1) % 3][0] == -3, "non-trivial operands explored");
     }
     #[kani::proof] fn k_c19_mulmat_col0_f32() { mulmat_col::<0>() }
     #[kani::proof] fn k_c19_mulmat_col1_f32() { mulmat_col::<1>() }
@@ -94,11 +94,11 @@ mod verif_c19 {
         let rb = RowVector::new(gf(b[0]), gf(b[1]), gf(b[2]));
         let c = ra.cross(&rb).values();
         let e = [a[1] * b[2] - a[2] * b[1], a[2] * b[0] - a[0] * b[2], a[0] * b[1] - a[1] * b[0]];
-        for i in 0..3 { assert!(c[i] as f64 == (e[i] as f64) * 0.000244140625, "cross equals the exact vector product"); }
-        assert!(ra.dot(&rb) as f64 == ((a[0] * b[0] + a[1] * b[1] + a[2] * b[2]) as f64) * 0.000244140625, "dot equals the exact scalar product");
+        for i in 0..3 { assert!(c[i] as f64 == (e[i] as f64) * 0.0625, "cross equals the exact vector product"); }
+        assert!(ra.dot(&rb) as f64 == ((a[0] * b[0] + a[1] * b[1] + a[2] * b[2]) as f64) * 0.0625, "dot equals the exact scalar product");
         let m = ra.component_mul(&rb).values();
-        for i in 0..3 { assert!(m[i] as f64 == ((a[i] * b[i]) as f64) * 0.000244140625, "component_mul is element-wise"); }
-        kani::cover!(b[0] == -3 && a[1] == 77, "non-trivial operands explored");
+        for i in 0..3 { assert!(m[i] as f64 == ((a[i] * b[i]) as f64) * 0.0625, "component_mul is element-wise"); }
+        kani::cover!(b[0] == -3 && a[1] == 7, "non-trivial operands explored");
     }
     #[kani::proof]
     fn k_c19_scalar_div_grid_f32() {
@@ -108,13 +108,13 @@ mod verif_c19 {
         let q = RowVector::new(gf(a[0]), gf(a[1]), gf(a[2])).scalar_div(gf(d)).values();
         let mq = m32(&[a, FA[1], FA[2]]).scalar_div(gf(d)).values();
         for i in 0..3 {
-            // q = a/d within 1e-5*max(1,|a/d|)  <=>  |q*d - a| <= 1e-5*max(|d|,|a|)   (all in 1/64 units)
+            // q = a/d within 1e-5*max(1,|a/d|)  <=>  |q*d - a| <= 1e-5*max(|d|,|a|)   (all in 1/4 units)
             let lhs = ((q[i] as f64) * (d as f64) - (a[i] as f64)).abs();
             let m = if a[i].abs() > d.abs() { a[i].abs() } else { d.abs() };
             assert!(lhs <= 1e-5 * (m as f64), "scalar_div is element-wise division");
             assert!(mq[0][i].to_bits() == q[i].to_bits(), "Matrix::scalar_div divides every row like RowVector::scalar_div");
         }
-        kani::cover!(d == -3 && a[1] == 77, "non-trivial operands explored");
+        kani::cover!(d == -3 && a[1] == 7, "non-trivial operands explored");
     }
     #[kani::proof]
     fn k_c19_mulvec_grid_f64() {
@@ -129,16 +129,16 @@ mod verif_c19 {
         let idm = ma.mul_mat(Matrix::<f64>::identity()).values();
         for i in 0..3 {
             let e = a[i][0] * v[0] + a[i][1] * v[1] + a[i][2] * v[2];
-            assert!(w[i] == (e as f64) * 0.000244140625 && c[i] == w[i], "f64: mul_arr / mul_vec equal the exact product");
+            assert!(w[i] == (e as f64) * 0.0625 && c[i] == w[i], "f64: mul_arr / mul_vec equal the exact product");
             for j in 0..3 { assert!(t[i][j] == gd(a[j][i]) && idm[i][j] == gd(a[i][j]), "f64: transpose / identity"); }
         }
         let rb = RowVector::new(gd(v[0]), gd(v[1]), gd(v[2]));
         let ra = RowVector::new(gd(a[in_r][0]), gd(a[in_r][1]), gd(a[in_r][2]));
         let cr = ra.cross(&rb).values();
         let x = a[in_r];
-        assert!(cr[0] == ((x[1] * v[2] - x[2] * v[1]) as f64) * 0.000244140625 && cr[1] == ((x[2] * v[0] - x[0] * v[2]) as f64) * 0.000244140625
-            && cr[2] == ((x[0] * v[1] - x[1] * v[0]) as f64) * 0.000244140625, "f64: cross");
-        assert!(ra.dot(&rb) == ((x[0] * v[0] + x[1] * v[1] + x[2] * v[2]) as f64) * 0.000244140625, "f64: dot");
+        assert!(cr[0] == ((x[1] * v[2] - x[2] * v[1]) as f64) * 0.0625 && cr[1] == ((x[2] * v[0] - x[0] * v[2]) as f64) * 0.0625
+            && cr[2] == ((x[0] * v[1] - x[1] * v[0]) as f64) * 0.0625, "f64: cross");
+        assert!(ra.dot(&rb) == ((x[0] * v[0] + x[1] * v[1] + x[2] * v[2]) as f64) * 0.0625, "f64: dot");
     }
 
     // invert: entries k/8; one row symbolic (|k| <= 16), the other two rows generic constants; determinant exact in integers
@@ -187,20 +187,20 @@ def plan(tier, seed):
     hs = [mk("k_c19_transpose_identity_f32", "transpose is an exact involution and swaps indices; M*identity() == identity()*M == M; accessors consistent", "9 entries: every f32 in [-2,2]", [])]
     for r in range(3):
         hs.append(mk("k_c19_mulvec_row%d_f32" % r, "mul_arr equals the exact product; mul_vec and the column of mul_mat agree with it bit for bit (lhs row %d symbolic)" % r,
-                     "6 operands on the fixed-point grid k/64, |k|<=128 (every f32 operation exact, integer oracle); remaining lhs rows generic constants", ["non-trivial operands explored"]))
-        hs.append(mk("k_c19_mulmat_col%d_f32" % r, "mul_mat equals the exact product (rhs column %d and one lhs row symbolic)" % r, "6 operands on the grid k/64; remaining entries generic constants", ["non-trivial operands explored"]))
+                     "6 operands on the fixed-point grid k/4, |k|<=8 (every f32 operation exact, integer oracle); remaining lhs rows generic constants", ["non-trivial operands explored"]))
+        hs.append(mk("k_c19_mulmat_col%d_f32" % r, "mul_mat equals the exact product (rhs column %d and one lhs row symbolic)" % r, "6 operands on the grid k/4; remaining entries generic constants", ["non-trivial operands explored"]))
         hs.append(mk("k_c19_invert_row%d_f32" % r, "invert(A) equals adj(A)/det(A) entrywise within 1e-5 for |det| >= 0.5 (row %d symbolic)" % r,
                      "3 entries on the grid k/8, |k|<=16; other rows generic constants; exact integer determinant/adjugate oracle", ["large determinant explored", "negative determinant explored"], to=1500))
     hs += [
-        mk("k_c19_cross_dot_grid_f32", "cross, dot, component_mul equal the exact results", "6 operands on the grid k/64", ["non-trivial operands explored"]),
-        mk("k_c19_scalar_div_grid_f32", "scalar_div is element-wise division within 1e-5 (RowVector and Matrix)", "4 operands on the grid k/64", ["non-trivial operands explored"]),
-        mk("k_c19_mulvec_grid_f64", "f64 instantiation: mul_arr/mul_vec/transpose/identity/cross/dot equal the exact results", "6 operands on the grid k/64, symbolic row index", []),
+        mk("k_c19_cross_dot_grid_f32", "cross, dot, component_mul equal the exact results", "6 operands on the grid k/4", ["non-trivial operands explored"]),
+        mk("k_c19_scalar_div_grid_f32", "scalar_div is element-wise division within 1e-5 (RowVector and Matrix)", "4 operands on the grid k/4", ["non-trivial operands explored"]),
+        mk("k_c19_mulvec_grid_f64", "f64 instantiation: mul_arr/mul_vec/transpose/identity/cross/dot equal the exact results", "6 operands on the grid k/4, symbolic row index", []),
         mk("k_c19_twin_must_fail", "vacuity twin", "", [], expect_fail="vacuity twin"),
     ]
     p.harnesses = hs
     p.functions = ["Matrix::{new,transpose,identity,scalar_div,invert,mul_vec,mul_mat,mul_arr,values,r1..r3}, RowVector::{cross,dot,scalar_div,component_mul,values,x,y,z}, ColVector::{new,values,transpose} (yuvxyb-math/src/matrix.rs)",
                    "FastMulAdd for f32/f64 (mul_add.rs, non-FMA branch)"]
-    p.bounds = ["structural identities: all finite f32 in [-2,2]", "tolerance clauses: 3-7 symbolic operands per instance on fixed-point grids (k/64 resp. k/8) with the remaining entries generic constants (an index/sign/transposition error is independent of which entries are symbolic); the oracle is exact integer arithmetic; full-width operands would make SAT re-derive 24x24 multipliers against a wider oracle (did not finish)"]
+    p.bounds = ["structural identities: all finite f32 in [-2,2]", "tolerance clauses: 3-7 symbolic operands per instance on fixed-point grids (k/4 resp. k/8, 17 resp. 33 values per operand) with the remaining entries generic constants (an index/sign/transposition error is independent of which entries are symbolic); the oracle is exact integer arithmetic; full-width operands would make SAT re-derive 24x24 multipliers against a wider oracle (did not finish)"]
     p.outside = ["tolerance clauses for operands with more than 8 significant bits", "A*invert(A) as a product (the entrywise adj/det contract implies it to ~1e-5*|A|<=6e-5 for these operands)", "FMA build"]
     p.assumptions = ["integer oracle: no overflow (|values| < 2^27)"]
     return p
